@@ -306,6 +306,13 @@ func (c *Ctx) c15Protocol() {
 			idx[ev] = i
 		}
 		groups := iterations(p)
+		// completeness: no loop over labels, keys or deleters is left by break (a remaining deleter, key or label would be skipped
+		// although the call goes on and reports success)
+		for _, ev := range p.Events {
+			if ev.Kind == pw.EvLoopEnd && ev.Note == "break" && (ev.Frame == nil || !ev.Frame.Deferred) {
+				r.Bad("R15.3", name, "loop-left-early", c.Pos(ev.Pos), "a loop over labels, keys or deleters is left by break: the remaining ones are skipped while the call goes on", shortTrace(p))
+			}
+		}
 		// classify loops: deleters loop = innermost loop containing a DeleterDelete call
 		var delLoops []*iterGroup
 		for _, g := range groups {
